@@ -996,8 +996,10 @@ func (t *Table) Reduce(cfg SortConfig, aaps []AliasAccPair) error {
 	id := func(r Row) string {
 		res := bytes.NewBufferString("")
 		for _, c := range cfg {
-			res.WriteString(r[c.Binding].identity())
-			res.WriteString(";")
+			// Each value is prefixed with its length: joined with a separator
+			// alone, ("x;S:y", "z") and ("x", "y;S:z") gave the same key.
+			v := r[c.Binding].identity()
+			fmt.Fprintf(res, "%d:%s;", len(v), v)
 		}
 		return res.String()
 	}
